@@ -40,7 +40,16 @@ MANIFEST = dict(
           "n = a ++ b of two documented names the juxtapositions 'a b' (blank, blanks, tab), the product 'a*b', n with a leading / trailing "
           "blank, and the documented names that differ from n only by letter case or underscores, resolved before / after / around n: n and "
           "every documented relative keep their reading, 'a*b' is the product unit, a juxtaposition is refused or the product, and every "
-          "related string has one outcome in all positions."),
+          "related string has one outcome in all positions. "
+          "(h) the registry OBJECT in which names are resolved, obtained through a copy / persistence route: 11 user rows (5 prefixable, 5 not, "
+          "one table symbol re-added as prefixable; 4 dimensions) are added, the registry goes through copy.copy, copy of a copy, copy.deepcopy, "
+          "Unit.copy(deep=True).registry, deepcopy of an array bound to it, UnitRegistry(lut=dict(reg.lut)), _correct_old_unit_registry on a copy "
+          "of the table, the array __reduce__/__setstate__ protocol (symbolic table and row scales travel as python objects) and through "
+          "to_json/from_json (once, twice, of a deep copy), pickle of the registry / of an array / of a Unit bound to it, UnitRegistry(lut=reg.lut) "
+          "(plain table and fixed float row scales: text cannot carry z3 terms), before and after the strings were used in the original; in the "
+          "derived registry all 22 prefixes x every row, the bare rows and 51 documented strings (prefixable / non-prefixable table symbols with and "
+          "without prefix, aliases, word forms) must have the outcome the independent reader gives for the ORIGINAL definitions (prefix * row scale, "
+          "refusal of a prefix on a non-prefixable row, documented reading), be bound to the derived registry, and equal the original's answer."),
     design="DESIGN.md section 4 C14",
     technique="SMT string queries (z3 seq) with all-SAT + completeness; symbolic execution of the real lookup over z3 real scales; replay")
 EXPLANATION = (
@@ -78,7 +87,15 @@ EXPLANATION = (
     "documented name - its two-name splits written with blanks or as an explicit product, the name with surrounding blanks, names that differ "
     "by case / underscores only - is resolved before, after and around the name on two registries; the name keeps its reading, documented "
     "relatives keep theirs, an explicit product is the product of the two symbolic scales (nonlinear obligation), a juxtaposition is refused or "
-    "that product, and the outcome of every related string is the same in all three positions (refused everywhere, or one unit)."
+    "that product, and the outcome of every related string is the same in all three positions (refused everywhere, or one unit). "
+    "ROUTES (routes/*): a registry is rarely the one that was built - it is copied with its units and arrays, restored from JSON (yt stores a "
+    "dataset's registry that way) or unpickled, and each route rebuilds the table rows, the SI-prefixability flag included. So the route is an axis: "
+    "user rows with both flags (and one table symbol re-added as prefixable) are added, the registry passes one of 16 routes, and the real name "
+    "resolution in the derived registry is compared with an independent reader of the original definitions and with the original registry's own "
+    "answer for the same string. routes/symbolic/*: the route keeps python objects, so the 145 table scales and the row scales are z3 reals and "
+    "base_value == prefix * s_row is decided by z3 for all scales; routes/text/*: JSON / pickle bytes cannot carry z3 terms - plain table, fixed "
+    "float scales, the comparisons are ground facts (the JSON restore code itself is run with symbolic rows in routes/symbolic/correct-old and "
+    "reduce-setstate). Refusals are exception classes."
 )
 BOUNDS = {
     "quick": "all 3872 exposed names x {string, attribute (unit_symbols + top level), add_symbols namespace of a custom registry}, 145 symbolic "
@@ -105,7 +122,9 @@ BOUNDS = {
              "every 8th other also numpy.bytes_, numpy.str_, str subclass, and bytes through unyt_quantity / unyt_array / to / in_units} x "
              "{first use, after str}; related strings: all documented names that split into two documented names and are no prefix ++ symbol form "
              "(108) + a sample of 60 of the 355 prefix-symbol forms that do + a sample of 40 of the 218 groups of names equal up to case / "
-             "underscores, each with 'a b', 'a  b', 'a<TAB>b', 'a*b', ' n', 'n ' and the other group members x 3 positions on 2 registries",
+             "underscores, each with 'a b', 'a  b', 'a<TAB>b', 'a*b', ' n', 'n ' and the other group members x 3 positions on 2 registries; "
+             "derived registries: 8 object routes (symbolic scales) + 8 text routes (plain table, fixed floats) x {first use, after use in the original} x "
+             "(11 user rows x 22 prefix spellings + rows + 51 documented strings), one fixed set of rows (both tiers)",
     "thorough": "same, plus prefix word x every non-prefixable alias and the title-case spellings in the rejection sweep (~25000 strings); "
                 "registry configurations: all 9 histories for every family ('add' with the full battery too), samples of 160 prefix-word / "
                 "title prefix-word tails, all 59 prefixed-symbol tails, all-SAT re-enumeration for the alias kinds as well; "
@@ -126,7 +145,8 @@ OUTSIDE = ("strings that are no documented spelling and no prefix+unit split (us
            "'da' first and splits once), row names / tails that are no python identifier or are keywords ('in', 'as', the 66 names "
            "with a degree sign), dependent table rows after an edit (modify('m') leaves 'inch' alone: C12/C13), compound expressions "
            "cached before an edit (C13), define_unit on the process-wide default registry (C13), registries restored from JSON / "
-           "pickle (C11); string forms: encodings other than utf-8, padded / NUL-terminated labels, '%' and degree-sign rewriting inside "
+           "pickle: everything but name resolution in them (C11), old-format (4-field) JSON rows (no flag stored), symbolic scales through JSON / "
+           "pickle text, rows with an offset or named like a documented spelling through a route; string forms: encodings other than utf-8, padded / NUL-terminated labels, '%' and degree-sign rewriting inside "
            "compound expressions; related strings: splits into three or more names, splits whose parts carry an offset (degC), "
            "unicode normalisation forms (MICRO SIGN and GREEK MU are the same unit), division / power expressions (C13, C20)")
 CONFORM = {"quick": 8, "thorough": 16}
@@ -1313,6 +1333,173 @@ def make_related_case(k, chunk):
     return Case(f"C14/related/{k:02d}", h, bounds=f"{len(chunk)} names x their related strings x 3 positions, 145 symbolic scales", budget_s=600, weight=5)
 
 
+# ---- registries obtained through copy / persistence routes ------------------------------------------------------------------
+# The registry OBJECT in which a name is resolved is an axis of its own: everything above resolves names in a registry that was
+# built directly.  Here user rows (prefixable and not, one table symbol re-added as prefixable) are added to a registry, the
+# registry goes through a route, and prefix x row, the bare rows and a sample of documented names are resolved in the DERIVED
+# registry: the outcome must be what the independent reader says for the ORIGINAL definitions and equal the original's answer.
+# Routes that keep python objects carry z3 terms (symbolic table scales and row scales: decided for all scales); routes through
+# text (JSON, pickle bytes) cannot carry z3 terms: plain table, fixed float row scales, the comparison is a ground fact there.
+
+ROUTES_SYMBOLIC = ("copy", "deepcopy", "unit-deepcopy", "array-deepcopy", "lut", "correct-old", "reduce-setstate", "copy-of-copy")
+ROUTES_TEXT = ("json", "json-twice", "pickle-registry", "pickle-array", "pickle-unit", "lut-shared", "deepcopy-plain", "json-of-copy")
+ROUTE_ROWS = (("furl", "length", True, 201.168), ("blink", "time", True, 0.3), ("mork", "mass", True, 2.5), ("pood", "mass", True, 16.38),
+              ("Tick", "time", True, 0.015625), ("ell", "length", False, 1.143), ("jiffy", "time", False, 0.01),
+              ("Gronk", "temperature", False, 3.0), ("hand", "length", False, 0.1016), ("knot_", "velocity", False, 0.5144),
+              ("yd", "length", True, 0.9))
+ROUTE_DOC = ("m", "km", "um", "dam", "g", "mg", "kg", "s", "ms", "pc", "kpc", "Mpc", "eV", "MeV", "Hz", "GHz", "ft", "mile", "Msun", "hr",
+             "degC", "kft", "Mmile", "khr", "mMsun", "meter", "kilometer", "parsec", "kiloparsec", "Kilometer", "Angstrom", "yr", "kyr",
+             "Pa", "ha", "mol", "mmol", "K", "mK", "lat", "klat", "inch", "minch", "G", "kG", "erg", "Merg", "dyn", "Mx", "smoot", "ksmoot")
+
+
+def route_rows(T, route):
+    """user rows of this family: the name is a python identifier, prefix ++ name has no documented reading and is no other row
+    or prefix ++ other row, and the name does not start with 'a' ('d' ++ 'a...': unyt tries 'da' first); 'yd' is the one table
+    symbol re-added as a prefixable row (not where the route re-adds the default table on purpose)"""
+    rows = []
+    for t, dn, flag, val in ROUTE_ROWS:
+        if t in T.rows and route == "lut-shared":
+            continue
+        ok = t.isidentifier() and not keyword.iskeyword(t) and not t.startswith("a") and (t in T.rows or _expected(t, T) is None)
+        ok = ok and all(_expected(p + t, T) is None for p in PREFIX_SYMS)
+        if ok:
+            rows.append((t, dn, flag, val))
+    names = [r[0] for r in rows]
+    pn = [p + t for p in PREFIX_SYMS for t in names]
+    assert len(set(pn + names)) == len(pn) + len(names), "prefix ++ row strings of the route family collide"
+    return rows
+
+
+def route_reading(name, T, rows):
+    """independent reader for the ORIGINAL definitions: ('user', prefix value, row) / ('doc', (pv, sym)) / None = refused"""
+    for t, _dn, flag, _v in rows:
+        if name == t:
+            return ("user", 1.0, t)
+    for t, _dn, flag, _v in rows:
+        for p in PREFIX_SYMS:
+            if name == p + t:
+                return ("user", PREFIX[p], t) if flag else None
+    doc = _expected(name, T)
+    if doc is not None and doc[1] in [r[0] for r in rows]:
+        return ("skip",)                        # a spelling of the re-added table symbol: which value it takes is C12
+    return ("doc", doc) if doc is not None else None
+
+
+def derive_registry(ctx, route, reg, t0):
+    import pickle
+    unyt = ctx.mods["unyt"]
+    UR = ctx.mods["UR"]
+    if route == "copy":
+        return copy.copy(reg)
+    if route == "copy-of-copy":
+        return copy.copy(copy.copy(reg))
+    if route in ("deepcopy", "deepcopy-plain"):
+        return copy.deepcopy(reg)
+    if route == "unit-deepcopy":
+        return unyt.Unit(t0, registry=reg).copy(deep=True).registry
+    if route == "array-deepcopy":
+        return copy.deepcopy(unyt.unyt_array([1.0, 2.0], t0, registry=reg)).units.registry
+    if route == "lut":
+        return UR.UnitRegistry(lut=dict(reg.lut), add_default_symbols=False)
+    if route == "lut-shared":
+        return UR.UnitRegistry(lut=reg.lut)
+    if route == "correct-old":
+        return UR.UnitRegistry(lut=UR._correct_old_unit_registry(dict(reg.lut)), add_default_symbols=False)
+    if route == "reduce-setstate":
+        # the unpickling protocol of an array without the byte stream: the table travels as python objects
+        red = unyt.unyt_array([1.0, 2.0], t0, registry=reg).__reduce__()
+        new = red[0](*red[1])
+        new.__setstate__(red[2])
+        return new.units.registry
+    if route == "json":
+        return UR.UnitRegistry.from_json(reg.to_json())
+    if route == "json-twice":
+        return UR.UnitRegistry.from_json(UR.UnitRegistry.from_json(reg.to_json()).to_json())
+    if route == "json-of-copy":
+        return UR.UnitRegistry.from_json(copy.deepcopy(reg).to_json())
+    if route == "pickle-registry":
+        return pickle.loads(pickle.dumps(reg))
+    if route == "pickle-array":
+        return pickle.loads(pickle.dumps(unyt.unyt_array([1.0, 2.0], t0, registry=reg))).units.registry
+    if route == "pickle-unit":
+        return pickle.loads(pickle.dumps(unyt.Unit(t0, registry=reg))).registry
+    raise ValueError(route)
+
+
+def run_route(ctx, route, warm):
+    unyt = ctx.mods["unyt"]
+    Unit = unyt.Unit
+    D = unyt.dimensions
+    T = tables()
+    text = route in ROUTES_TEXT
+    cfg = _Cfg(ctx, f"route:{route}", plain=text)
+    reg = cfg.reg
+    rows = route_rows(T, route)
+    scale, dims = {}, {}
+    for t, dn, flag, val in rows:
+        if text:
+            st = val
+        else:
+            st = ctx.real(f"u:{t}", pos=True)
+            if not ctx.symbolic:
+                st = float(st)
+        scale[t], dims[t] = st, getattr(D, dn)
+        reg.add(t, st, dims[t], tex_repr=r"\rm{" + t.replace("_", r"\_") + "}", prefixable=flag)
+    strings = [p + t for t, *_ in rows for p in PREFIX_SYMS] + [t for t, *_ in rows] + [n for n in ROUTE_DOC]
+    step = f"{route}/{'after use in the original' if warm else 'first use'}"
+    if warm:
+        for n in strings:
+            call(Unit, n, registry=reg)
+    r0 = call(derive_registry, ctx, route, reg, rows[0][0])
+    ctx.require(f"{step}/route yields a registry", r0[0] == "ok" and r0[1] is not reg and isinstance(r0[1], ctx.mods["UR"].UnitRegistry),
+                got=repr(r0[1])[:120])
+    if r0[0] != "ok":
+        return
+    der = r0[1]
+    flags = {t: flag for t, _d, flag, _v in rows}
+    for name in strings:
+        rd = route_reading(name, T, rows)
+        if rd is not None and rd[0] == "skip":
+            continue
+        rn = call(Unit, name, registry=der)
+        ro = call(Unit, name, registry=reg)
+        got = str(rn[1])[:60] if rn[0] == "ok" else type(rn[1]).__name__
+        goto = str(ro[1])[:60] if ro[0] == "ok" else type(ro[1]).__name__
+        if rd is None:
+            kind = "prefix on a non-prefixable row refused" if any(name.endswith(t) for t in flags) else "prefix on a non-prefixable table symbol refused"
+            ctx.require(f"{step}/{kind}", rn[0] == "raise" and isinstance(rn[1], unyt.exceptions.UnitParseError), string=name, got=got)
+            same = ro[0] == "raise" and rn[0] == "raise"
+        elif rd[0] == "user":
+            t = rd[2]
+            kind = ("row itself" if name == t else "prefix x prefixable row") + ("/re-added table symbol" if t in T.rows else "")
+            ok = rn[0] == "ok" and And(close(rn[1].base_value, scale[t] * rd[1]), dimvec(rn[1].dimensions) == dimvec(dims[t]), rn[1].registry is der)
+            ctx.require(f"{step}/{kind}", ok, string=name, row=t, prefix=rd[1], got=got)
+            same = ro[0] == "ok" and rn[0] == "ok" and And(close(rn[1].base_value, ro[1].base_value), dimvec(rn[1].dimensions) == dimvec(ro[1].dimensions))
+        else:
+            E = cfg.doc_value(name, rd[1])
+            ok = rn[0] == "ok" and And(_unit_ok(ctx, rn[1], E, T, rd[1]), rn[1].registry is der)
+            ctx.require(f"{step}/documented name keeps its reading/{_label_of(name, T)}", ok, string=name, expected=f"{rd[1][0]}*{rd[1][1]}", got=got)
+            same = ro[0] == "ok" and rn[0] == "ok" and And(close(rn[1].base_value, ro[1].base_value), dimvec(rn[1].dimensions) == dimvec(ro[1].dimensions))
+        ctx.require(f"{step}/derived registry answers like the original", same, string=name, derived=got, original=goto)
+    # the prefixable flag as the registry reports it
+    pu = call(lambda: set(der.prefixable_units))
+    want = {t for t, f in flags.items() if f}
+    ctx.require(f"{step}/prefixable_units lists the prefixable rows and none of the others",
+                pu[0] == "ok" and want <= pu[1] and not (pu[1] & (set(flags) - want)), got=repr(sorted(pu[1] & set(flags)) if pu[0] == "ok" else pu[1])[:120])
+
+
+def make_route_case(route):
+    def h(ctx):
+        for warm in (False, True):
+            run_route(ctx, route, warm)
+    kind = "text" if route in ROUTES_TEXT else "symbolic"
+    return Case(f"C14/routes/{kind}/{route}", h,
+                bounds=f"{len(ROUTE_ROWS)} user rows x 22 prefixes + rows + {len(ROUTE_DOC)} documented strings x {{first use, after use}}; "
+                       + ("plain table, fixed float row scales (text cannot carry z3 terms)" if kind == "text" else "145 table scales + row scales symbolic"),
+                budget_s=600, weight=6)
+
+
+
 _COLL = {}
 
 
@@ -1376,6 +1563,12 @@ def cases(tier, mods):
         out += [make_named_case(family, i // step, items[i:i + step], hists) for i in range(0, len(items), step)]
     fn = forms_layout(tier, mods)
     out += [make_forms_case(i // 60, fn[i:i + 60]) for i in range(0, len(fn), 60)]
+    for t, *_ in ROUTE_ROWS:
+        for n in [t] + [p + t for p in PREFIX_SYMS]:
+            _expected(n, T)
+    for n in ROUTE_DOC:
+        _expected(n, T), _label_of(n, T)
+    out += [make_route_case(r) for r in ROUTES_SYMBOLIC + ROUTES_TEXT]
     rl = related_layout(tier, mods)
     out += [make_related_case(i // 25, rl[i:i + 25]) for i in range(0, len(rl), 25)]
     return out
@@ -1405,5 +1598,7 @@ def coverage_extra(results, tier):
                       "custom/*: solver-decided (symbolic table scales and scale of the added row), rejections are exception classes; "
                       "edit/*: solver-decided (symbolic old and new scales), rejections and registry identity are ground facts; "
                       "forms/*: solver-decided (symbolic scales); related/*: solver-decided (symbolic scales, products of two scales), "
-                      "refusals are exception classes"))
+                      "refusals are exception classes; routes/symbolic/*: solver-decided (symbolic table and row scales); routes/text/*: ground "
+                      "facts (plain floats through JSON / pickle text), refusals are exception classes"),
+                registry_routes=dict(symbolic=list(ROUTES_SYMBOLIC), text=list(ROUTES_TEXT), rows=[r[0] for r in ROUTE_ROWS]))
 
